@@ -85,7 +85,7 @@ class StateSpaceBase(object):
         'CCF' for the controllable canonical form.
 
         """
-        return cls.from_transfer_function_coeffs(cls, b, a, form)
+        return cls.from_transfer_function_coeffs(b, a, form)
 
     @classmethod
     def from_transfer_function_coeffs(cls, b, a, form='CCF'):
@@ -227,7 +227,7 @@ class StateSpaceBase(object):
 
         # FIXME
         if Na == Nb:
-            D[0, 0] = b[0]
+            D[0, 0] = b[0] / a[0]
         else:
             D[0, 0] = 0
 
